@@ -47,10 +47,11 @@ Example C10_nonvacuous :
     (TI, "a") = Some e.
 Proof. vm_compute. eexists. repeat split. Qed.
 
-(* wrappers (Arc, OnceInitCell, the Asset->Compound and Compound->Storable blanket impls) take the
+(* wrappers (Arc, OnceInitCell over U and over Option<U>, the Asset->Compound and Compound->Storable blanket impls) take the
    flag of what they wrap, and the type descriptor stores the type's flag *)
 Theorem C10_flag_is_forwarded :
   forwards Arc_HOT_RELOADED "T" = true /\ forwards Blanket_HOT_RELOADED "Self" = true /\
   forwards Storable_HOT_RELOADED "T" = true /\ forwards OnceInit_HOT_RELOADED "U" = true /\
+  forwards OnceInitOpt_HOT_RELOADED "U" = true /\
   descriptor_wf Inner_of_asset = true /\ descriptor_wf Inner_of_storable = true.
 Proof. exact hot_reloaded_flag_is_forwarded. Qed.
